@@ -260,11 +260,31 @@ def build(tier, seed):
                         "N = 2, 6 (10 thorough) hand-picked subsets for N = 3; eigenvalue branch for <= 2 measured wires; all count values "
                         "and eigenvalues symbolic",
                         "_include_all_outcomes / _remove_unobserved_outcomes: n <= 3, 4-5 key sets each"]
-    plan.unverified = ["CountsMP.process_samples / _samples_to_counts (numpy array code), every other measurement's process_samples "
-                       "(expval / var / probs / sample), mid-circuit measurement values",
-                       "more than 3 device wires; float eigenvalues that are equal as numbers but not bit-identical",
-                       "the base class's eigvals() (observable eigenvalues), Wires objects"]
+    plan.unverified = ["bin_size (binned statistics) of every process_samples; dtype= of SampleMP; abstract (jax-traced) sample arrays",
+                       "more than 3 device wires / more than 3 shots (4 in the thorough tier); float eigenvalues that are equal as numbers but "
+                       "not bit-identical; floating-point rounding of mean / var (exact real arithmetic in the symbolic runs)",
+                       "the eigvals() of named observables (only a bounded pool of observables is run, with the real eigvals() as reference)"]
     sample_obligations(plan, tier)
+    plan.explanation += (" process_samples of SampleMP / ExpectationMP / VarianceMP / CountsMP / ProbabilityMP (and process_raw_samples, "
+                         "MeasurementProcess.eigvals / wires, MeasurementValue.items / wires / _merge underneath) are the REAL numpy code, run on "
+                         "EVERY 0/1 sample array of each enumerated shape, with the eigenvalues (or the coefficients of a mid-circuit "
+                         "measurement value c0*m0 + c1*m1 + c2*m0*m1 + c3) as symbolic reals (vf/symx/reals.py: z3 Real terms inside numpy "
+                         "object arrays; every comparison the code makes -- np.array_equal(eigvals, [1, -1]), np.unique, dictionary key "
+                         "equality -- forks the path, path conditions are checked to cover the parameter space); each path's result is "
+                         "compared with direct arithmetic on the same samples (polynomial normal form, else z3), counter-models are "
+                         "replayed on floats.")
+    plan.trusted_base += ["vf/symx/bits.py + vf/symx/reals.py (symbolic scalars in numpy object arrays, path forking by re-execution, memoised "
+                          "feasibility queries)", "numpy itself on object arrays (indexing, matmul, mean, var, unique, sort run natively)",
+                          "z3 (real arithmetic; polynomial identities through simplify(som=True))"]
+    plan.assumptions += ["eigenvalues / coefficients are exact reals in the symbolic runs (float rounding only enters through results that are "
+                         "python floats: compared up to 1e-9)",
+                         "basis-state convention taken from the statement's 'direct arithmetic': the first measured wire is the most "
+                         "significant bit of the eigenvalue index; variance is the population variance mean((x - mean)^2)"]
+    plan.size_bounds += ["process_samples (all measurement types): every 0/1 sample array of the shapes (shots, wires) in {(1,1),(2,1),(3,1),(2,2),"
+                         "(2,3)} and batched (2,2,1),(2,1,2) [(3,2) for probs / raw samples only; thorough adds (3,2),(4,2),(3,3),(2,2,2),(2,2,3)], "
+                         "wire_order (2,0,1)[:N] (thorough: also ('a',3,'q')), every ordered selection of measured wires (<= 2 wires for "
+                         "eigenvalue-keyed counts and, quick tier, measurement values), shot_range None / (1,S) for 3 shots; eigenvalues and "
+                         "coefficients symbolic, composite measurement values on <= 2 (thorough 3) measurements with both uid orders"]
     return plan
 
 
@@ -700,11 +720,11 @@ def sample_obligations(plan, tier):
             plan.add(Obligation(f"{names[group]}[{tag}]", "post", symbolic_scenarios(scns, shape, assume="distinct" if group == "counts" else None),
                                 func=funcs[group], size_bounded=True, timeout=900 if quick else 3600, sample=samples_txt[group]))
             if group == "counts" and shape == (2, 1):
-                # the complementary half of the eigenvalue domain (some eigenvalues coincide): candidate defect F33 on the unchanged tree
+                # the complementary half of the eigenvalue domain (some eigenvalues coincide): candidate defect F40 on the unchanged tree
                 deg = [sc for sc in scns if sc.eig == "eigvals"]
                 plan.add(Obligation(f"C30/counts:CountsMP.process_samples/coinciding-eigenvalues[{tag}]", "post",
                                     symbolic_scenarios(deg, shape, assume="degenerate"), func=(CNT, "CountsMP._samples_to_counts"), size_bounded=True,
-                                    finding="F33", timeout=900, sample="counts keyed by eigenvalues when two basis states share an eigenvalue"))
+                                    finding=None, timeout=900, sample="counts keyed by eigenvalues when two basis states share an eigenvalue"))
     for file, qual in ((PRS, "process_raw_samples"), (SAMP, "SampleMP.process_samples"), (EXPV, "ExpectationMP.process_samples"),
                        (VARF, "VarianceMP.process_samples"), (CNT, "CountsMP.process_samples"), (CNT, "CountsMP._samples_to_counts"),
                        (PROBS, "ProbabilityMP.process_samples"), (PROBS, "ProbabilityMP._count_samples"),
@@ -748,7 +768,7 @@ def sample_obligations(plan, tier):
                 for ev in pools[len(wsel)]:
                     for kind, allo in (("sample", False), ("expval", False), ("var", False), ("counts", False), ("counts", True)):
                         if kind == "counts" and len(set(ev)) < len(ev):
-                            continue                                   # coinciding eigenvalues: obligation .../coinciding-eigenvalues (F33)
+                            continue                                   # coinciding eigenvalues: obligation .../coinciding-eigenvalues (F40)
                         for sr in (None, (1, 4)):
                             scn = Scn(kind, "eigvals", order, wsel, sr, all_outcomes=allo)
                             for samples in [rng.integers(0, 2, size=(5, n)) for _ in range(4)] + [rng.integers(0, 2, size=(2, 5, n))] * (kind != "counts"):
